@@ -34,7 +34,7 @@ func (*c08) Config(tier string) fw.Config {
 }
 func (*c08) Rule() string {
 	return "each case = one script family aimed at shared state (indexing/iterating shared string constants, run-time failures in main and in module files, builtin and source modules, closures, mutable array/map inputs, format (sync.Pool), comparing/copying shared constants) compiled once; " +
-		"(1) 8 clones taken before any run (and, for scripts without closures in globals, after a run) execute 6 runs each on 8 goroutines with inputs unique per (clone, iteration); every result is compared with the sequential baseline of the same inputs; Set/Run on one clone must be invisible in the others and in the original; ReplaceBuiltinModule on one clone races with the others running; " +
+		"(1) 8 clones taken before any run (and, for scripts without closures in globals, after a run) execute 6 runs each on 8 goroutines with inputs unique per (clone, iteration); every result is compared with the sequential baseline of the same inputs; Set/Run on one clone must be invisible in the others and in the original; ReplaceBuiltinModule on one clone, on the original, or on a clone that has itself been cloned, races with the others running and must stay invisible to them; " +
 		"(2) 4 clients issue random Set/Get/IsDefined/GetAll/Run/Clone calls on ONE Compiled; the history (call/return stamps from one monotonic clock, unique written values) is checked for linearizability against a sequential model with porcupine; " +
 		"(3) the whole harness runs under the Go race detector with halt_on_error=1, so any unsynchronised access in tengo frames ends the worker and is reported with its stacks; yield points inside Clone widen interleavings. " +
 		"distinct = distinct (family, seed); non-trivial = all concurrent cases"
@@ -179,6 +179,17 @@ func (c *c08) isolationCase(r *fw.Rec, rng *rand.Rand, fam c08Family) {
 	var wg sync.WaitGroup
 	got := make([][]string, K)
 	start := make(chan struct{})
+	// where the builtin module is replaced: 0 = on a leaf clone, 1 = on the ORIGINAL while its clones run,
+	// 2 = on a clone that has itself been cloned (its child must not notice)
+	replaceOn := 0
+	if fam.mods {
+		replaceOn = rng.Intn(3)
+	}
+	replaced := map[string]tengo.Object{"abs": &tengo.UserFunction{Name: "abs", Value: func(args ...tengo.Object) (tengo.Object, error) {
+		return &tengo.Float{Value: 12345}, nil
+	}}}
+	var cloned sync.WaitGroup // in mode 1 every clone is taken before the original is modified (a later clone would rightly inherit the replacement)
+	cloned.Add(K)
 	for i := 0; i < K; i++ {
 		got[i] = make([]string, iters)
 		wg.Add(1)
@@ -186,16 +197,26 @@ func (c *c08) isolationCase(r *fw.Rec, rng *rand.Rand, fam c08Family) {
 			defer wg.Done()
 			<-start
 			clones[i] = cp.Clone() // clones are also TAKEN concurrently
+			cloned.Done()
+			if replaceOn == 1 {
+				cloned.Wait()
+			}
 			for j := 0; j < iters; j++ {
 				cl := clones[i]
 				if j%5 == 4 {
 					cl = clones[i].Clone() // a clone of a clone
+					if fam.mods && i == 0 && replaceOn == 2 {
+						clones[i].ReplaceBuiltinModule("math", replaced)
+					}
 				}
 				if fam.mods && i == 0 && j%3 == 0 {
-					// replacing a builtin module on one clone must not disturb the others
-					cl.ReplaceBuiltinModule("math", map[string]tengo.Object{"abs": &tengo.UserFunction{Name: "abs", Value: func(args ...tengo.Object) (tengo.Object, error) {
-						return &tengo.Float{Value: 12345}, nil
-					}}})
+					switch replaceOn {
+					case 0:
+						// replacing a builtin module on one clone must not disturb the others
+						cl.ReplaceBuiltinModule("math", replaced)
+					case 1:
+						cp.ReplaceBuiltinModule("math", replaced)
+					}
 				}
 				got[i][j] = c08RunOne(cl, fam.inputs(int64(i*1000+j+1)))
 			}
@@ -234,8 +255,8 @@ func (c *c08) isolationCase(r *fw.Rec, rng *rand.Rand, fam c08Family) {
 	for i := 0; i < K; i++ {
 		for j := 0; j < iters; j++ {
 			w := want[i][j]
-			if fam.mods && i == 0 {
-				continue // this clone runs with a replaced builtin module: only the others are compared
+			if fam.mods && i == 0 && (replaceOn == 0 || (replaceOn == 2 && j > 4)) {
+				continue // this clone runs with a replaced builtin module: only the others (and, in mode 2, its child) are compared
 			}
 			if got[i][j] != w {
 				detail["clone"] = i
@@ -246,6 +267,9 @@ func (c *c08) isolationCase(r *fw.Rec, rng *rand.Rand, fam c08Family) {
 				return
 			}
 		}
+	}
+	if fam.mods {
+		r.Inc(fmt.Sprintf("replace-builtin-module:mode%d", replaceOn))
 	}
 	if after := c08Snapshot(cp); after != origBefore {
 		detail["original_before"] = trunc(origBefore, 1000)
@@ -501,7 +525,7 @@ func (c *c08) RunCase(r *fw.Rec, cs fw.Case) {
 }
 
 func (c *c08) Finish(m *fw.Merged, tier string) {
-	for _, k := range []string{"histories-linearizable", "clone-executions", "clone-after-run-probe", "cancel-stress"} {
+	for _, k := range []string{"histories-linearizable", "clone-executions", "clone-after-run-probe", "cancel-stress", "replace-builtin-module:mode0", "replace-builtin-module:mode1", "replace-builtin-module:mode2"} {
 		if m.Counters[k] == 0 {
 			m.Fail("never observed: " + k)
 		}
